@@ -768,6 +768,8 @@ class CompressedBytesColumn(Column):
     default).
     """
 
+    _default = emptybytes
+
     def __init__(self, level=3, module="zlib"):
         """
         :param level: the compression level to use.
@@ -1129,6 +1131,9 @@ class WrappedColumn(Column):
     def stores_lists(self):
         return self._child.stores_lists()
 
+    def default_value(self, reverse=False):
+        return self._child.default_value(reverse)
+
 
 class WrappedColumnWriter(ColumnWriter):
     def __init__(self, child):
@@ -1197,6 +1202,10 @@ class PickleColumn(WrappedColumn):
     overhead of pickling and unpickling.
     """
 
+    def default_value(self, reverse=False):
+        # What the reader returns for a row without a value
+        return None
+
     class Writer(WrappedColumnWriter):
         def __repr__(self):
             return "<PickleWriter>"
@@ -1232,6 +1241,10 @@ class PickleColumn(WrappedColumn):
 class ListColumn(WrappedColumn):
     def stores_lists(self):
         return True
+
+    def default_value(self, reverse=False):
+        # What the readers return for a row without a value
+        return []
 
 
 class ListColumnReader(ColumnReader):
